@@ -55,6 +55,12 @@ CHECKS = {
         text="TLC checks Authentication (client completes only with a peer holding both certified keys and proving it in this session; server with verified client auth only with the key holder over this transcript) and Agreement on the symbolic model for every single-deviation scenario (7 certificate kinds per slot, wrong key per slot, SKE omitted/replayed/mis-signed/over another encryption certificate, client certificate kinds, wrong client key, replayed CertificateVerify, 13 field rewrites, a changed byte at 8 (64 thorough) positions of each plaintext handshake message, verification off); each scenario runs against the real client and server and the set of endpoints that complete must be the model's.",
         note="Symbolic cryptography (signatures unforgeable, encryption opaque). GMSSL suites only; the TLS 1.x path relies on C06 interop. One deviation per scenario.",
         ref="DESIGN.md section 5 C08"),
+    "C10": dict(
+        level="model_checking",
+        technique="TLA+ declarative reference path validator (PKIX.tla: ValidChains as all simple paths satisfying signature, name chaining, validity, CA / certSign, path length, permitted domains, host name, EKU, critical extension) evaluated by TLC over PKI templates x knobs; each case materialised with real SM2 certificates and run through (*Certificate).Verify under several pool orders",
+        text="TLC enumerates 633 cases (thorough: pairs of certificate knobs, ~5000) over linear chains of depth 0-2, two roots with a cross-signed intermediate, a mutual cross-signing loop and a diamond under a path-length-limited root, with one knob per certificate (expired / not yet valid / not a CA / no certSign / path length 0,1 / forged signature / permitted domains / unknown critical extension) and one per query (time, name case, trailing dot, other name, no name, wildcards, IP SAN, requested and leaf EKUs) and computes the set of valid chains; the real Verify must succeed exactly when that set is non-empty and return only members of it, for up to 6 (24) insertion orders of the intermediate pool.",
+        note="Name constraints are exercised only together with a requested DNS name, EKU restrictions only on leaves (where nested and leaf semantics agree). Trusts that the PKI factory realises each abstract field (it uses the library's own CreateCertificate with an explicit algorithm).",
+        ref="DESIGN.md section 5 C10"),
     "C11": dict(
         level="model_checking",
         technique="executable TLA+ definitions of PKCS#7 + ECB/CBC/CFB/OFB over SM4.tla evaluated by TLC as oracle (ModesTab); helpers' package-level IV modelled as state (Modes.tla) with TLC-simulated SetIV/encrypt/decrypt behaviours replayed and validated by TLC (ModesTrace); caller-memory canaries",
